@@ -92,10 +92,11 @@ def forged_signature(obj, auto=True, args=(), kwargs={}):
         ret = forger(obj=subject)
         if ret is not None:
             if not isinstance(ret, _util.funcsigs.Signature):
-                # eg. objects that answer to every attribute name
-                raise TypeError(
-                    'unexpected object {0!r} returned by signature forger'
-                    .format(ret))
+                # eg. unittest.mock objects, which answer to every attribute
+                # name: none of the _sigtools__* attributes they appear to
+                # have means anything
+                return _signatures.UpgradedSignature._upgrade_with_warning(
+                    _signatures.signature(obj))
             return _signatures.UpgradedSignature._upgrade_with_warning(ret)
     if auto:
         try:
